@@ -48,6 +48,7 @@ func init() {
 	register(&PropertyRule{ID: "C09", Explain: "structural necessary conditions of C09 (snapshot install): see DESIGN.md §5 C09", Run: func(c *Check) {
 		c09Snapshot(c)
 		cSnapClear(c)
+		cStorageSnapshot(c)
 		gTrunc(c)
 		gCommitMono(c)
 		c06Follower(c)
@@ -121,10 +122,12 @@ func init() {
 		gAppendMatch(c)
 		gStamp(c)
 		c03Unstable(c)
+		cStorageSnapshot(c)
 		sliceRules(c)
 	}})
 	register(&PropertyRule{ID: "C18", Explain: "structural necessary conditions of C18 (log storage views): see DESIGN.md §5 C18", Run: func(c *Check) {
 		c18Storage(c)
+		cStorageSnapshot(c)
 		gStable(c)
 		sliceRules(c)
 	}})
